@@ -14,6 +14,7 @@ package obfs4
 
 import (
 	"bytes"
+	"crypto/sha256"
 	"encoding/json"
 	"fmt"
 	"io"
@@ -222,8 +223,9 @@ func TestVerifGen_C01_obfs4keys(t *testing.T) {
 	f := c01KeysGoldenFile{Comment: "C01 golden vectors: obfs4 node keys per (secret, libver), written by TestVerifGen_C01_obfs4keys from the tree at the time the check was built."}
 	for i := 0; len(f.Records) < 400 && i < 4000; i++ {
 		c := gen.Example(i)
-		if c.Keygen {
-			c.Keygen, c.ClientStream = false, nil
+		if c.Keygen { // crypto/rand inside: turn into a deterministic fixed-secret case
+			h := sha256.Sum256([]byte(fmt.Sprintf("C01 golden obfs4 secret %d", i)))
+			c.Keygen, c.ClientStream, c.Secret = false, nil, h[:]
 		}
 		if i%2 == 0 {
 			c.LibVer = uint32(i/2) % 5
